@@ -89,3 +89,56 @@ func (v *VerifNode) Write(pgid uint64, npages int) (buf []byte, panicked string)
 func (v *VerifNode) Read(img []byte) string {
 	return verifGuard(func() { v.n.read((*common.Page)(unsafe.Pointer(&img[0]))) })
 }
+
+// ---- the node tree of a bucket inside a write transaction, as rebalance and spill will see it ----
+
+// VerifRebalanceHook, when set, is told which materialised node Bucket.rebalance is about to visit
+// (Go's map iteration order is not specified; the model takes the observed order as an input).
+var VerifRebalanceHook func(b *Bucket, pgid uint64)
+
+func verifRebalanceVisit(b *Bucket, n *node) {
+	if h := VerifRebalanceHook; h != nil {
+		h(b, uint64(n.pgid))
+	}
+}
+
+// VerifNodeTree is one vertex of a bucket's tree: a materialised node (with its bookkeeping) or a page.
+type VerifNodeTree struct {
+	IsNode     bool
+	Unbalanced bool
+	Leaf       bool
+	Pgid       uint64 // page id (of the page, or the page the node was read from; 0 = new node)
+	Overflow   uint32 // overflow count of the page (for a node: of the page it was read from)
+	NodeKey    []byte // node.key: the key the parent knows this node by
+	Inodes     []VerifInode
+	Kids       []*VerifNodeTree // branch only, aligned with Inodes
+}
+
+func VerifDumpNodeTree(b *Bucket) *VerifNodeTree { return verifDumpNodeAt(b, b.RootPage()) }
+
+func verifDumpNodeAt(b *Bucket, id common.Pgid) *VerifNodeTree {
+	p, n := b.pageNode(id)
+	t := &VerifNodeTree{}
+	if n != nil {
+		t.IsNode, t.Unbalanced, t.Leaf, t.Pgid, t.NodeKey = true, n.unbalanced, n.isLeaf, uint64(n.pgid), append([]byte{}, n.key...)
+		if n.pgid != 0 {
+			t.Overflow = b.tx.page(n.pgid).Overflow()
+		}
+		for i := range n.inodes {
+			in := &n.inodes[i]
+			t.Inodes = append(t.Inodes, VerifInode{Flags: in.Flags(), Key: append([]byte{}, in.Key()...), Value: append([]byte{}, in.Value()...), Pgid: uint64(in.Pgid())})
+			if !n.isLeaf {
+				t.Kids = append(t.Kids, verifDumpNodeAt(b, in.Pgid()))
+			}
+		}
+		return t
+	}
+	t.Leaf, t.Pgid, t.Overflow = p.IsLeafPage(), uint64(p.Id()), p.Overflow()
+	for _, in := range common.ReadInodeFromPage(p) {
+		t.Inodes = append(t.Inodes, VerifInode{Flags: in.Flags(), Key: append([]byte{}, in.Key()...), Value: append([]byte{}, in.Value()...), Pgid: uint64(in.Pgid())})
+		if !t.Leaf {
+			t.Kids = append(t.Kids, verifDumpNodeAt(b, in.Pgid()))
+		}
+	}
+	return t
+}
